@@ -34,6 +34,17 @@ PATTERNS = {
     'CH->CF-reversed-bond': (_pat(['C', 'H'], [(0, 0, 0), (1.1, 0, 0)]),
                              _pat(['F', 'C'], [(1.35, 0, 0), (0, 0, 0)], charges=[-0.25, 0.25], groups=[3, 4],
                                   bonds=[(0, 1)], bond_types=[0], tables=True, labels=['pF', 'pC'])),
+    # the same pair with force-field labels on the replacement only (search pattern built from plain elements): what counts as a common
+    # atom is element + coordinates, not the label
+    'CH->CF-ff-labels': (_pat(['C', 'H'], [(0, 0, 0), (1.1, 0, 0)], labels=['C', 'H']),
+                         _pat(['C', 'F'], [(0, 0, 0), (1.35, 0, 0)], charges=[0.25, -0.25], groups=[3, 4],
+                              bonds=[(0, 1)], bond_types=[1], tables=True, labels=['C_R', 'F_'])),
+    # replacement cut from a CIF-like source: extra per-atom and per-bond columns the structure does not have
+    'CH->CF-extra-columns': (_pat(['C', 'H'], [(0, 0, 0), (1.1, 0, 0)]),
+                             _pat(['C', 'F'], [(0, 0, 0), (1.35, 0, 0)], charges=[0.25, -0.25], groups=[3, 4],
+                                  bonds=[(0, 1)], bond_types=[1], tables=True, labels=['pC', 'pF'],
+                                  extra_atom=(['_atom_site_occupancy', '_atom_site_ff_label'], [['1.0', 'C_R'], ['0.5', 'F_']]),
+                                  extra_bond=(['_geom_bond_distance'], [['1.350']]))),
     'CH->full': (_pat(['C', 'H'], [(0, 0, 0), (1.1, 0, 0)]), FULL_R),
     'CH->NOO': (_pat(['C', 'H'], [(0, 0, 0), (1.1, 0, 0)]),
                 _pat(['N', 'O', 'O'], [(0.1, 0, 0), (1.2, 0, 0), (-0.5, 1.0, 0)], charges=[0.5, -0.3, -0.2],
@@ -88,6 +99,10 @@ def make_pattern(ctx, d, pair=True):
             kw[k + '_types'] = list(d[k + '_types'])
             if d.get('tables'):
                 kw[KCOEFF[k]] = [f"P{k}{j} 9.{j} # pat" if j else f"P{k}{j} 9.{j}" for j in range(2)]
+    for k in ('atom', 'bond'):
+        if d.get('extra_' + k):
+            kw[f'extra_{k}_labels'] = list(d['extra_' + k][0])
+            kw[f'extra_{k}_fields'] = [list(r) for r in d['extra_' + k][1]]
     a = Atoms(positions=[list(map(float, x)) for x in d['pos']], charges=d.get('charges'), groups=d.get('groups'), **kw)
     if ctx.sym:
         a.positions = a.positions.astype(object)
@@ -247,7 +262,7 @@ def pattern_atom_final(R, L, m, k):
 def unmodified_inputs(ctx, R):
     st, sp0 = R['st'], R['snap']['st']
     after = spec_from_state(st)
-    same = AND(after.N == sp0.N, after.tables == sp0.tables, after.extra == sp0.extra,
+    same = AND(after.N == sp0.N, after.tables == sp0.tables, after.extra == sp0.extra, after.extra_labels == sp0.extra_labels, lengths_consistent(st),
                *[EQ(x, y) for x, y in zip(after.types + after.charges + after.groups, sp0.types + sp0.charges + sp0.groups)],
                *[EQ(after.pos[i][c], sp0.pos[i][c]) for i in range(sp0.N) for c in range(3)],
                *[EQ(x, y) for k, _ in KINDS for (e1, t1), (e2, t2) in zip(after.terms[k], sp0.terms[k])
